@@ -38,6 +38,19 @@ type site struct {
 type function struct {
 	Name  string
 	Items []any // string (filler line) or site
+	// Header: 0 = "TEXT name(SB) file" as go tool objdump prints it; 1 = a bare
+	// "TEXT" line; 2 = tab-separated "TEXT<TAB>name<TAB>file". Every line that
+	// begins with the marker word starts a function (as on the pinned tree).
+	Header int
+}
+
+func usesHeaderVariants(funcs []function) bool {
+	for _, f := range funcs {
+		if f.Header != 0 {
+			return true
+		}
+	}
+	return false
 }
 
 var wrappers = []string{"syscall.Syscall(SB)", "syscall.Syscall6(SB)", "syscall.RawSyscall(SB)", "syscall.RawSyscall6(SB)", "syscall.rawVforkSyscall(SB)",
@@ -75,10 +88,17 @@ func renderListing(funcs []function, i386 bool, table map[int]string, r *rand.Ra
 		return fmt.Sprintf("$%d", n)
 	}
 	for fi, f := range funcs {
-		fmt.Fprintf(&b, "TEXT %s /src/file%d.go\n", f.Name, fi)
+		switch f.Header {
+		case 1:
+			fmt.Fprintf(&b, "TEXT\n")
+		case 2:
+			fmt.Fprintf(&b, "TEXT\t%s\t/src/file%d.go\n", f.Name, fi)
+		default:
+			fmt.Fprintf(&b, "TEXT %s /src/file%d.go\n", f.Name, fi)
+		}
 		isWrapper := false
 		for _, w := range wrappers {
-			if strings.Contains(f.Name, w) {
+			if strings.Contains(f.Name, w) && f.Header != 1 {
 				isWrapper = true
 			}
 		}
@@ -153,6 +173,10 @@ func genFunctions(r *rand.Rand, nf int, table map[int]string) []function {
 		}
 		nItems := r.Intn(12)
 		orphanFirst := r.Intn(6) == 0
+		if r.Intn(10) == 0 {
+			f.Header = 1 + r.Intn(2)
+			orphanFirst = r.Intn(2) == 0
+		}
 		for k := 0; k < nItems; k++ {
 			if r.Intn(3) != 0 {
 				f.Items = append(f.Items, fillers[r.Intn(len(fillers))])
@@ -269,6 +293,9 @@ type c16Case struct {
 	isDir  bool
 	exp    []expected // nil: no expectation on content
 	hasExp bool
+	// numOnly: the listing uses header variants whose caller text is not defined
+	// by go tool objdump; only the numbers are compared
+	numOnly bool
 	// mustError: the text cannot be read to the end; a nil error is a violation
 	mustError bool
 	// prefixOf: index of the case this one is a function-boundary prefix of
@@ -309,11 +336,11 @@ func c16() {
 		funcs := genFunctions(r, nf, tables[a])
 		seedR := r.Int63()
 		text, exp := renderListing(funcs, a == "i386", tables[a], rand.New(rand.NewSource(seedR)))
-		full := add(&c16Case{kind: "model", arch: a, text: []byte(text), exp: exp, hasExp: true})
+		full := add(&c16Case{kind: "model", arch: a, text: []byte(text), exp: exp, hasExp: true, numOnly: usesHeaderVariants(funcs)})
 		if nf > 1 && i%3 == 0 {
 			k := 1 + r.Intn(nf-1)
 			ptext, pexp := renderListing(funcs[:k], a == "i386", tables[a], rand.New(rand.NewSource(seedR)))
-			pi := add(&c16Case{kind: "model-prefix", arch: a, text: []byte(ptext), exp: pexp, hasExp: true})
+			pi := add(&c16Case{kind: "model-prefix", arch: a, text: []byte(ptext), exp: pexp, hasExp: true, numOnly: usesHeaderVariants(funcs[:k])})
 			cases[pi].prefixOf = full
 		}
 	}
@@ -539,6 +566,16 @@ func c16() {
 			for _, e := range c.exp {
 				want[key(e.Num, e.Caller)]++
 			}
+			if c.numOnly {
+				got, want = map[string]int{}, map[string]int{}
+				for _, sc := range res.Syscalls {
+					got[key(sc.Num, "")]++
+				}
+				for _, e := range c.exp {
+					want[key(e.Num, "")]++
+				}
+				run.Count("listings_with_marker_variants", 1)
+			}
 			run.Count("sites_expected", int64(len(c.exp)))
 			run.Count("sites_found", int64(len(res.Syscalls)))
 			diff := ""
@@ -590,7 +627,7 @@ func c16() {
 		run.Require("read_faults_injected", 5)
 	}
 	run.Finish(run.Counter("texts")+run.Counter("read_faults_injected"), int64(len(distinct)),
-		"listings generated from a site model (functions x {raw trap after MOV, wrapper CALL after MOV to 0(SP), XOR special case, decoy load, traps inside wrapper functions, trap whose load is in the previous function, numbers outside the table}) for x86_64 and i386 with function-boundary prefixes; hostile lines (every prefix of a TEXT marker, trigger words with 0..3 fields, odd numbers, NUL/invalid UTF-8, CRLF), lines of 65535..1000000 bytes, a directory, truncation at every byte/line, PRNG byte mutations, read errors injected by strace at every read; each batch in a child process with the input on disk before the call; distinct = (arch, sites, functions) shapes of model listings")
+		"listings generated from a site model (functions x {raw trap after MOV, wrapper CALL after MOV to 0(SP), XOR special case, decoy load, traps inside wrapper functions, trap whose load is in the previous function, numbers outside the table; function headers as go tool objdump prints them, bare 'TEXT' lines and tab-separated headers}) for x86_64 and i386 with function-boundary prefixes; hostile lines (every prefix of a TEXT marker, trigger words with 0..3 fields, odd numbers, NUL/invalid UTF-8, CRLF), lines of 65535..1000000 bytes, a directory, truncation at every byte/line, PRNG byte mutations, read errors injected by strace at every read; each batch in a child process with the input on disk before the call; distinct = (arch, sites, functions) shapes of model listings")
 }
 
 // c16ReadFaults makes the K-th read of the listing fail with EIO.
